@@ -101,6 +101,15 @@ def call(cfg, variant=0):
             insts.append(C(**dict(ckw, **flip)).set_params(**ckw))
         cls_equal = all(bool(np.array_equal(np.asarray(i(yt, yp, **extra)), np.asarray(fv), equal_nan=True)) for i in insts)
         cls_equal = cls_equal and all(i.get_params()[k] == v for i in insts for k, v in ckw.items() if not callable(v))
+    # ... also with the call-time options (horizon weights, multioutput) handed to the class instance
+    if cls_equal is not False:
+        try:
+            C = getattr(M, CLASS_OF[m])
+            cv = C(**ckw)(yt, yp, **extra, **kw)
+            if not np.array_equal(np.asarray(cv, dtype=float), np.asarray(val, dtype=float), equal_nan=True):
+                cls_equal = False
+        except TypeError:
+            cls_equal = False
     # averaging over output columns: the aggregate is the (weighted) mean of the per-column values.  Scaled errors and
     # relative_loss aggregate numerator and denominator separately (as documented) and are not judged by this clause
     if ncol == 2 and cfg["mo"] == "raw" and m not in SCALED and m != "relative_loss" and np.all(np.isfinite(out)):
